@@ -273,6 +273,8 @@ Section Transparent.
   Hypothesis Hsmall : positions_small D.
   Hypothesis Hnames : type_names_ok S.
   Hypothesis Hk1 : fullkey M1 = true.
+  Hypothesis Hrp1 : report M1 = true.
+  Hypothesis Hrp2 : report M2 = true.
   Hypothesis Hd1 : fixd M1 = true.
   Hypothesis Hd2 : fixd M2 = true.
 
@@ -342,7 +344,7 @@ Section Transparent.
     mrel (snd (collect_fields M1 S D E fuel ot sels st1)) (snd (collect_fields M2 S D E fuel ot sels st2)) /\
     (forall g, fst (collect_fields M2 S D E fuel ot sels st2) = CFOk g -> nodes_ok D g).
   Proof.
-    intros Hot Hocc [He Hc]. unfold collect_fields. rewrite Hm1, Hm2, Hd1, Hd2, Hk1.
+    intros Hot Hocc [He Hc]. unfold collect_fields. rewrite Hm1, Hm2, Hd1, Hd2, Hk1, Hrp1, Hrp2.
     set (es := snd (collect_errs S D E fuel ot sels [])).
     assert (Hnodes : forall v g, collect_impl S D E fuel ot sels [] [] = COk v g -> nodes_ok D g).
     { intros v g Hci. eapply collect_impl_nodes; [exact Hocc|constructor|exact Hci]. }
